@@ -52,3 +52,80 @@ Example C03_reparse_example :
   = ([104;116;116;112], [117;64;104;58;56], [47;97;47;98], [113;61;49], [102]).
 Proof. vm_compute. reflexivity. Qed.
 Print Assumptions C03_reparse_example.
+
+(** THE FIXED POINT AT THE URL LEVEL.  For every input string (any length, any characters)
+    the constructor accepts, whose authority is absent or a plain ASCII host name (visible
+    characters, no userinfo, port or brackets, not ending in a digit - so no oracle is
+    consulted), and outside F14/F15: str(u) is accepted again, the URL it yields prints as
+    the same string, and has the same scheme, authority, query, fragment and raw path.
+    Holds for both backends and every behaviour of the external libraries. *)
+From Yarl Require Import Model.Host Model.Url Spec.Rfc3986Split Proofs.FixedPointProofs.
+Theorem C03_fixed_point_plain_authority : forall (O : oracles) (B : backend) (s : str) (u : url),
+  valid_str s -> encode_url O B s = Ok u ->
+  (let '(_, nl0, _, _, _) := rfc_split (spec_clean s) in nl0 = [] \/ plain_name nl0) ->
+  (u_netloc u = [] -> u_scheme u <> [] -> str_in (u_scheme u) USES_AUTHORITY = true -> rooted_or_empty (u_path u)) ->
+  (u_scheme u = [] -> u_netloc u = [] ->
+   match snd (take_while not_in4 (u_path u)) with 58%N :: _ => fst (take_while not_in4 (u_path u)) = [] | _ => True end) ->
+  exists s' u2,
+    url_str B u = Ok s' /\ encode_url O B s' = Ok u2 /\ url_str B u2 = Ok s'
+    /\ u_scheme u2 = u_scheme u /\ u_netloc u2 = u_netloc u /\ u_path u2 = printed_path u
+    /\ u_query u2 = u_query u /\ u_fragment u2 = u_fragment u /\ raw_path u2 = raw_path u.
+Proof. exact fixed_point_plain. Qed.
+Print Assumptions C03_fixed_point_plain_authority.
+
+(** its building blocks, usable for any authority: the parser accepts the re-composed
+    string of re-parse-safe, visible, ASCII-authority components and returns them ... *)
+Theorem C03_split_url_inverts_print : forall (nfkc : str -> str) (sc nl p q f : str),
+  reparse_safe sc nl p q f -> visible (unsplit_result sc nl p q f) ->
+  check_brackets nl = Ok tt -> isascii nl = true ->
+  split_url nfkc (unsplit_result sc nl p q f) = Ok (sc, nl, p, q, f).
+Proof. exact split_url_unsplit. Qed.
+Print Assumptions C03_split_url_inverts_print.
+
+(** ... re-encoding canonical components changes nothing (whatever the authority, as long
+    as its own re-encoding is stable) ... *)
+Theorem C03_reencode_canonical : forall (O : oracles) (B : backend) (s' sc nl p q f : str) e2,
+  split_url (o_nfkc O) s' = Ok (sc, nl, p, q, f) ->
+  auth_step O B sc nl = Ok (nl, e2) ->
+  path_canon nl p -> canon QRQ q = true -> canon FRQ f = true ->
+  encode_url O B s' = Ok (mk_url sc nl p q f e2).
+Proof. exact encode_url_of_canonical. Qed.
+Print Assumptions C03_reencode_canonical.
+
+(** ... and the constructor always produces canonical scheme, path, query and fragment *)
+Theorem C03_constructor_canonical : forall (O : oracles) (B : backend) (s : str) (u : url),
+  valid_str s -> encode_url O B s = Ok u ->
+  (u_scheme u = [] \/ (forallb Spec.Rfc3986.rfc_scheme_char (u_scheme u) = true /\ lower_ascii (u_scheme u) = u_scheme u))
+  /\ path_canon (u_netloc u) (u_path u) /\ canon QRQ (u_query u) = true /\ canon FRQ (u_fragment u) = true.
+Proof. exact encode_url_canonical_parts. Qed.
+Print Assumptions C03_constructor_canonical.
+
+(** non-vacuity: "HTTP://Example.COM/a/../%7Eb?x y#f" meets every hypothesis of the fixed
+    point theorem (dummy oracles: none is consulted) *)
+Definition no_oracles : oracles :=
+  mk_oracles (fun s => s) (fun _ => None) (fun _ => None) (fun _ => None) (fun _ => None) (fun _ => None) (fun s => s).
+Definition c03_sample : str :=
+  [72;84;84;80;58;47;47;69;120;97;109;112;108;101;46;67;79;77;47;97;47;46;46;47;37;55;69;98;63;120;32;121;35;102]%N.
+Example C03_fixed_point_example :
+  exists u s' u2, encode_url no_oracles BC c03_sample = Ok u
+    /\ url_str BC u = Ok s' /\ encode_url no_oracles BC s' = Ok u2 /\ url_str BC u2 = Ok s'
+    /\ s' = [104;116;116;112;58;47;47;101;120;97;109;112;108;101;46;99;111;109;47;126;98;63;120;43;121;35;102]%N.
+Proof.
+  destruct (encode_url no_oracles BC c03_sample) as [u|e] eqn:E; [|vm_compute in E; discriminate].
+  assert (Hv : valid_str c03_sample) by (unfold valid_str, c03_sample; repeat constructor; discriminate).
+  destruct (C03_fixed_point_plain_authority no_oracles BC c03_sample u Hv E) as (s' & u2 & H1 & H2 & H3 & _).
+  - assert (E0 : rfc_split (spec_clean c03_sample)
+                 = ([104;116;116;112], [69;120;97;109;112;108;101;46;67;79;77], [47;97;47;46;46;47;37;55;69;98], [120;32;121], [102])%N)
+      by (vm_compute; reflexivity).
+    rewrite E0. right. unfold plain_name.
+    split; [discriminate|]. split; [vm_compute; reflexivity|]. split; [vm_compute; reflexivity|].
+    split; [vm_compute; reflexivity|]. split; [vm_compute; reflexivity|]. split; [vm_compute; reflexivity|].
+    split.
+    + intros l Q. assert (l = 77%N) by (vm_compute in Q; congruence). subst l. vm_compute. reflexivity.
+    + unfold visible. repeat (constructor; [reflexivity|]). constructor.
+  - vm_compute in E. inversion E. cbn. discriminate.
+  - vm_compute in E. inversion E. cbn. discriminate.
+  - exists u, s', u2. repeat split; try assumption.
+    vm_compute in E. inversion E; subst u. vm_compute in H1. inversion H1. reflexivity.
+Qed.
+Print Assumptions C03_fixed_point_example.
